@@ -25,7 +25,7 @@ LEVEL_NOTE = ('The full statement "completes exactly once, after the last one" i
 TECHNIQUE = 'Lean 4 proof (restriction of the context machine, inductive invariant on the chain of members, stamps as ghost state) + trace acceptor on real runs + stamp oracle'
 ASSUMPTIONS = ['members of compounds are distinct PTG taskpools without user completion callback (asserted by the code); no nested compounds',
                'the assumptions of C06']
-KNOWN = {_ctx.KEY_COMPOUND_EARLY}
+KNOWN = {_ctx.KEY_COMPOUND_EARLY, _ctx.KEY_COMPOUND_HANG}
 
 
 def run(ctx, res, lines=None):
